@@ -583,6 +583,10 @@ class SymEngine:
         tg = tgs[0]
         if isinstance(e.func, ast.Name) and e.func.id == "len" and len(args) == 1 and tg.kind == "ext":
             return self.mk_len(args[0])
+        if tg.kind == "def" and len(tgs) == 1:
+            inl = self._inline_new_helper(e, tg, f, st)
+            if inl is not None:
+                return inl
         if tg.kind == "def":
             g = tg.func
             # bind receiver as first argument for methods called on an instance
@@ -612,6 +616,50 @@ class SymEngine:
             recv = self.ev(tg.recv, f, st)
             return ("call", "m:" + tg.meth, (recv,) + args, kws)
         return ("call", "opaque:%s" % tg.name, args, kws)
+
+    def _inline_new_helper(self, call, tg, f, st):
+        """A helper that did not exist when the rules were written and has a single, unconditional
+        return is replaced by its return term (extract-helper refactorings keep the terms stable)."""
+        from .known_funcs import KNOWN_FUNCS
+        g = tg.func
+        if g.qual in KNOWN_FUNCS or g.is_generator or g.qual in self._in_progress:
+            return None
+        key = ("inl", g.qual)
+        memo = self.__dict__.setdefault("_inl_memo", {})
+        if key not in memo:
+            memo[key] = None
+            try:
+                cases = self.summary(g, None)
+            except Exception:
+                cases = None
+            if cases and len(cases) == 1:
+                ret, cf = cases[0]
+                if not (cf.kind or cf.truth or cf.eq or cf.ne or cf.none or cf.inset or cf.offs) and not any(v != (0, INF) for v in cf.len.values()):
+                    memo[key] = ret
+        ret = memo[key]
+        if ret is None:
+            return None
+        amap = {}
+        params = list(g.params)
+        if tg.recv is not None and params and g.cls is not None and not g.is_static:
+            amap[params[0]] = self.ev(tg.recv, f, st)
+            params = params[1:]
+        elif g.cls is not None and not g.is_static and params:
+            params = params[1:]
+        for pn, a in zip(params, call.args):
+            if isinstance(a, ast.Starred):
+                return None
+            amap[pn] = self.ev(a, f, st)
+        for k in call.keywords:
+            if k.arg is None:
+                return None
+            amap[k.arg] = self.ev(k.value, f, st)
+        for pn, d in g.defaults().items():
+            if pn not in amap:
+                v = self.P.fold(g.module, d)
+                amap[pn] = self._const_term(v) if v is not UNKNOWN else unk("default")
+        recv = amap.get(g.self_name) if g.self_name else None
+        return subst(ret, amap, recv)
 
     def mk_len(self, x):
         if is_c(x) and hasattr(x[1], "__len__"):
